@@ -247,7 +247,12 @@ func ConnectAndAuthenticateWithConfig(ctx context.Context, config *ClientConfig)
 
 		// Perform authentication handshake
 		if config.Security != nil {
-			auth := security.NewAuthenticator(config.Security, client.stream)
+			// The handshake mutates the config it is given (NewAuthenticator stores
+			// this connection's ephemeral ECDH public key in it), so hand it a
+			// private shallow copy: callers may share one SecurityConfig between
+			// concurrent connections (as server.ServeConn and ccb already assume).
+			secConfig := *config.Security
+			auth := security.NewAuthenticator(&secConfig, client.stream)
 			negotiation, err := auth.ClientHandshake(ctx)
 
 			// Check if this is a session resumption error
